@@ -404,6 +404,31 @@ func runC14(c *core.Ctx) core.Meta {
 	st8 := c.Rule("R14.8", "removing a finished wavefront from a wavefront pool (or any list of the compute unit) takes out exactly that wavefront: every append / in-place copy of the compute-unit package that joins two windows of one slice is append(s[:i], s[i+1:]...) or copy(s[i:], s[i+1:]) followed by a cut by one. A shifted window removes a live wavefront with the finished one: it is never scheduled again, its work-group never completes and the wavefronts of its group wait at the next barrier for ever", 1)
 	checkSliceRemovalIdiom(c, st8, "R14.8", pcu, "a live wavefront leaves the pool with the finished one and is never scheduled again")
 	checkNoCompactionWhileRanging(c, "R14.12", 6, pcu, pemu)
+	// ---------------- R14.13 the last-piece marker is only ever raised ----------------
+	st13 := c.Rule("R14.13", "the compute unit retires a memory instruction (decrements the wavefront's outstanding counters) when the response to a request with CanWaitForCoalesce == false arrives: the flag marks every piece of an instruction but the last. In the CU package the flag is only ever raised: every store to a CanWaitForCoalesce field stores the constant true (the pieces ahead of the last one, where the instruction's transactions are formed). A store of false - or of a computed value - anywhere else turns a middle piece into a last one: the instruction retires on that piece's response, s_waitcnt and s_endpgm pass with loads in flight, and the real last response drives the counter below zero", 3)
+	for _, fn := range pcu.Funcs {
+		for _, b := range fn.Blocks {
+			for _, in := range b.Instrs {
+				s, ok := in.(*ssa.Store)
+				if !ok {
+					continue
+				}
+				f := core.FieldOfAddr(s.Addr)
+				if f == nil || f.Name() != "CanWaitForCoalesce" {
+					continue
+				}
+				st13.Instances++
+				c.MarkAnalysed(fn)
+				k, isC := core.ConstBool(s.Val)
+				ok = isC && k
+				st13.Ob(ok)
+				st13.Sample("%s: CanWaitForCoalesce = %s", core.FuncName(fn), short(prov.Of(s.Val)))
+				if !ok {
+					c.ReportAt("R14.13", fn, s.Pos(), "last-piece-marker-lowered:"+core.FuncName(fn), core.FuncName(fn)+" stores "+short(prov.Of(s.Val))+" into CanWaitForCoalesce: the compute unit takes a response to a request with the flag clear as the completion of the whole instruction, so a piece that is not the last retires it - the wait counters drop while other pieces are in flight (s_waitcnt passes early, registers are read before they are written) and drop again on the real last piece")
+				}
+			}
+		}
+	}
 
 	// R14.7 the release reaches every wavefront of the group, not only those that found room in the barrier buffer
 	st7 := c.Rule("R14.7", "passBarrier makes every unfinished wavefront of the work-group ready: each call that sets a wavefront ready (UpdatePCAndSetReady), helpers of passBarrier expanded, takes a wavefront drawn from the work-group's own wavefront list (wg.Wfs). A wavefront that reaches s_barrier while the barrier buffer is full waits in state WfAtBarrier without an entry in the buffer; a release that walks the buffer leaves it at the barrier for ever, and later barriers of the group look complete without it", 1)
